@@ -255,24 +255,32 @@ func NewGrafanaNet(key string, matcher matcher.Matcher, cfg GrafanaNetConfig) (R
 
 // run manages incoming and outgoing data for a shard
 func (route *GrafanaNet) run(in chan []byte) {
+	defer route.wg.Done()
 	var metrics []*schema.MetricData
 	buffer := new(bytes.Buffer)
+
+	// add parses buf and adds it to the batch. returns whether the batch was flushed because it became full
+	add := func(buf []byte) bool {
+		route.numBuffered.Dec(1)
+		md, err := parseMetric(buf, route.schemas, route.Cfg.OrgID)
+		if err != nil {
+			log.Errorf("RouteGrafanaNet: parseMetric failed: %s. skipping metric", err)
+			return false
+		}
+		md.SetId()
+		metrics = append(metrics, md)
+		if len(metrics) == route.Cfg.FlushMaxNum {
+			metrics = route.retryFlush(metrics, buffer)
+			return true
+		}
+		return false
+	}
 
 	timer := time.NewTimer(route.Cfg.FlushMaxWait)
 	for {
 		select {
 		case buf := <-in:
-			route.numBuffered.Dec(1)
-			md, err := parseMetric(buf, route.schemas, route.Cfg.OrgID)
-			if err != nil {
-				log.Errorf("RouteGrafanaNet: parseMetric failed: %s. skipping metric", err)
-				continue
-			}
-			md.SetId()
-			metrics = append(metrics, md)
-
-			if len(metrics) == route.Cfg.FlushMaxNum {
-				metrics = route.retryFlush(metrics, buffer)
+			if add(buf) {
 				// reset our timer
 				if !timer.Stop() {
 					<-timer.C
@@ -283,11 +291,20 @@ func (route *GrafanaNet) run(in chan []byte) {
 			timer.Reset(route.Cfg.FlushMaxWait)
 			metrics = route.retryFlush(metrics, buffer)
 		case <-route.shutdown:
+			// flush everything that is still buffered for this shard
+			for {
+				select {
+				case buf := <-in:
+					add(buf)
+					continue
+				default:
+				}
+				break
+			}
 			metrics = route.retryFlush(metrics, buffer)
 			return
 		}
 	}
-	route.wg.Done()
 }
 
 func (route *GrafanaNet) retryFlush(metrics []*schema.MetricData, buffer *bytes.Buffer) []*schema.MetricData {
@@ -462,7 +479,7 @@ func (route *GrafanaNet) Shutdown() error {
 	//conf := route.config.Load().(Config)
 
 	// trigger all of our queues to be flushed to the tsdb-gw
-	route.shutdown <- struct{}{}
+	close(route.shutdown)
 
 	// wait for all tsdb-gw writes to complete.
 	route.wg.Wait()
